@@ -425,6 +425,13 @@ func authPredicate(f *family, label string, mutated []byte, goOut string) string
 	if len(rel) == 0 && class != "ok" {
 		return ""
 	}
+	// an anonymous signcryption sender signs nothing: a co-recipient (who knows
+	// the payload key) can re-encrypt at will, and C04 claims nothing — there is
+	// no named sender the bytes are attributed to.  The insider forgeries are
+	// still compared with the model; only the predicate does not apply.
+	if f.mode == "sc" && !f.named && len(label) > 1 && label[0] == 'f' && label[1] >= '0' && label[1] <= '9' {
+		return ""
+	}
 	var match *genuineMsg
 	for _, g := range f.msgs {
 		if bytes.HasPrefix(g.pt, rel) {
